@@ -325,13 +325,16 @@ def codes_of(*classes_or_functions):
 
 def explore_threads(make, nthreads=2, P=2, budget=1000, on_run=None):
     """Iterative context bounding by prefix replay for small programs.  make(sched) -> (programs, judge); judge(ok, sched)
-    -> None or (key, message).  Returns (executed, exhaustive, first_bad) where first_bad = (key, message, forced)."""
-    stack = [({}, 0)]
+    -> None or (key, message).  Schedules with fewer preemptions are executed first (a budget that runs out has then cut
+    the deepest schedules, not an arbitrary part).  Returns (executed, exhaustive, first_bad); first_bad = (key, message, forced)."""
+    import heapq
+    heap = [(0, 0, {})]
+    tick = 0
     executed = 0
-    while stack:
+    while heap:
         if executed >= budget:
             return executed, False, None
-        forced, used = stack.pop()
+        used, _, forced = heapq.heappop(heap)
         sch = Sched(nthreads, forced)
         programs, judge = make(sch)
         ok = sch.run(programs)
@@ -349,7 +352,9 @@ def explore_threads(make, nthreads=2, P=2, budget=1000, on_run=None):
         for (i, me, run, kind) in sch.trace:
             if i == "start":
                 if not forced:
-                    stack.extend(({"start": t}, used) for t in run[1:])
+                    for t in run[1:]:
+                        tick += 1
+                        heapq.heappush(heap, (used, tick, {"start": t}))
                 continue
             if i <= last:
                 continue
@@ -357,11 +362,13 @@ def explore_threads(make, nthreads=2, P=2, budget=1000, on_run=None):
                 for t in run[1:]:
                     f = dict(forced)
                     f[i] = t
-                    stack.append((f, used))
+                    tick += 1
+                    heapq.heappush(heap, (used, tick, f))
             elif used < P:
                 for t in run:
                     if t != me:
                         f = dict(forced)
                         f[i] = t
-                        stack.append((f, used + 1))
+                        tick += 1
+                        heapq.heappush(heap, (used + 1, tick, f))
     return executed, True, None
